@@ -321,6 +321,12 @@ func ematchInstances(lines []string, hyps []*quantHyp, goalText string) []string
 					}
 				}
 			}
+			// a name for one object's element array — (select HEAP base) — is read like that term
+			if d := defs[r.arr]; d != nil {
+				if op, sa := splitTop(d.body); op == "select" && len(sa) == 2 && isSymbol(strings.TrimSpace(sa[0])) {
+					push(arrRead{d.body, r.idx}, it.depth)
+				}
+			}
 			// a named inner array may itself be defined in terms of heap reads
 			if d := defs[r.arr]; d != nil {
 				for _, sub := range allSelects(d.body) {
